@@ -12,7 +12,9 @@ mod sim;
 mod vbus;
 
 mod eng_codec;
+mod eng_diag;
 mod eng_dp;
+mod eng_dp2;
 mod eng_gsd;
 mod eng_las;
 mod eng_prm;
@@ -146,7 +148,9 @@ fn main() {
         "C03" => eng_dp::c03(&mut ctx),
         "C04" => eng_dp::c04(&mut ctx),
         "C06" => eng_recover::c06(&mut ctx),
+        "C07" => eng_dp2::c07(&mut ctx),
         "C08" => eng_dp::c08(&mut ctx),
+        "C17" => eng_dp2::c17(&mut ctx),
         "C14" => eng_dp::c14(&mut ctx),
         "C09" => eng_codec::c09(&mut ctx),
         "C10" => eng_codec::c10(&mut ctx),
